@@ -192,6 +192,26 @@ Section EVAL.
               else if String.eqb kd "foreign" then throw (EForeign "injected")
               else throw (EStd kd "injected")
           end
+        else if String.eqb name "eval" then
+          (* internal_eval -> do_eval: parse the text and evaluate it on the *current* stack; a Return_Value ends
+             the evaluation with that value; an eval_error is handed to the script as a Boxed_Value *)
+          match o with
+          | Some (OStr text) =>
+              t <- Prim (PEvalTree text) ;;
+              match t with
+              | None => unsup "eval of a text the harness did not pre-parse"
+              | Some tree =>
+                  Handle (Ev tree)
+                    (fun r => match r with
+                              | inl d => Ret d
+                              | inr (FRet d) => Ret d
+                              | inr (FThrow (EEval reason st)) =>
+                                  ex <- new_value (OExc "eval_error" "eval_error" reason) false false ;; throw (EBoxed ex)
+                              | inr f => Fail f
+                              end)
+              end
+          | _ => dispatch_error "eval"
+          end
         else if String.eqb name "what" then
           match o with
           | Some (OExc _ _ w) => new_value (OStr w) false true
